@@ -48,9 +48,10 @@ func normObs(kind string, err bool, v string, panicS string) string {
 	}
 	if err {
 		switch kind {
-		case "GetAll", "RangeScan", "PrefixScan", "LRange", "SMembers", "ZRangeByRank":
+		case "GetAll", "RangeScan", "PrefixScan", "PrefixSearchScan", "LRange", "SMembers", "ZRangeByRank", "ZRangeByScore",
+			"SDiff1", "SDiff2", "SUnion1", "SUnion2", "ZMembers":
 			return "[]"
-		case "LSize", "SCard", "ZCard":
+		case "LSize", "SCard", "ZCard", "ZCount":
 			return "0"
 		}
 		return "ERR"
